@@ -609,7 +609,7 @@ def with_decimal(inner, quick, thorough):
 REGISTRY["C06"]["run"] = with_decimal(REGISTRY["C06"]["run"], 150, 6000)
 REGISTRY["C04"]["run"] = with_statefn(REGISTRY["C04"]["run"], {"canAdd"}, 150, 6000)
 REGISTRY["C02"]["run"] = with_statefn(REGISTRY["C02"]["run"], {"contrib"}, 150, 6000)
-REGISTRY["C13"]["run"] = with_statefn(REGISTRY["C13"]["run"], {"canPut"}, 150, 6000)
+REGISTRY["C13"]["run"] = with_decimal(with_statefn(REGISTRY["C13"]["run"], {"canPut"}, 150, 6000), 150, 6000)
 for _pid, _f in (("C04", "can_add_resources"), ("C02", "per-step contribution of perform"), ("C13", "can_put")):
     REGISTRY[_pid]["footprint_doc"] += "; %s on real mid-run and scrambled states" % _f
 
@@ -652,7 +652,7 @@ def run_c10_full(ctx):
     ctx.rule += "; plus clause 3 on real histories: simulate(absence=L); remove_absence_time_list() against simulate() for models without individual absences and component-bound automatic tasks, flag off"
 
 
-REGISTRY["C08"] = dict(run=run_c08_full, footprint_doc=REGISTRY["C08"]["footprint_doc"] + "; history ops")
+REGISTRY["C08"] = dict(run=with_decimal(run_c08_full, 150, 6000), footprint_doc=REGISTRY["C08"]["footprint_doc"] + "; history ops")
 REGISTRY["C10"] = dict(run=run_c10_full, footprint_doc=REGISTRY["C10"]["footprint_doc"] + "; removal histories (search only)")
 def run_c09_full(ctx):
     """phase-level lockstep (the order-independence theorems are about the model: every phase must
@@ -671,6 +671,26 @@ def run_c09_full(ctx):
 
 
 REGISTRY["C09"] = dict(run=run_c09_full, footprint_doc="every phase x every field (lockstep); whole runs under permuted set-iteration orders, rebuilt objects, repeated simulate, fresh processes")
+def _c07_loaded(inner):
+    def run(ctx):
+        import preds
+        inner(ctx)
+        _hp.run_loaded(ctx, ctx.n(40, 1500), preds.pred_C07, "the cost-accounting predicate")
+    return run
+
+
+REGISTRY["C07"]["run"] = _c07_loaded(REGISTRY["C07"]["run"])
+
+
+def _c14_resumed(inner):
+    def run(ctx):
+        import preds
+        inner(ctx)
+        _hp.run_resumed(ctx, ctx.n(60, 2000), preds.pred_C14, "the component-state predicate")
+    return run
+
+
+REGISTRY["C14"]["run"] = _c14_resumed(REGISTRY["C14"]["run"])
 REGISTRY["C15"] = dict(run=_hp.run_c15, footprint_doc="pause/resume histories at every k, in memory and through JSON")
 REGISTRY["C17"] = dict(run=_hp.run_c17, footprint_doc="backward_simulate histories incl. exception injection at observer calls")
 REGISTRY["C18"] = dict(run=_hp.run_c18, footprint_doc="remove/insert_absence_time_list histories")
